@@ -13,3 +13,5 @@ from lib import facts as F
 d, fresh = F.ensure_facts("/repo")
 print("facts ready in", d, "(fresh)" if fresh else "(cached)")
 PY
+# warm the compile-time witness crate (E3)
+(cd witness && cp /repo/Cargo.lock . 2>/dev/null; CARGO_TARGET_DIR=/verif/.cache/target-witness cargo +nightly test --doc --offline 2>&1 | tail -3)
